@@ -11,6 +11,7 @@ claimed = {
  "C08": ("model_checking", "Compiler.tla is the front end as a state machine (one action per grammar action, guarded by exactly the checks of the constraint catalogue); valid random programs, each with one catalogue edit at a random position/nesting depth (27 rules, incl. inside imported files) and hand-aimed boundary programs on both sides of every numeric limit are rendered and given to the real parser and command line; TLC steps the machine over each program and decides acceptance, the cited file and line span, exit status and absence of output files.", "6 C08", "TLA+ Compiler state machine + TLC trace validation of the real parser/CLI on catalogue-violating programs"),
  "C11": ("model_checking", "Compiler!Lookup (innermost scope of the current file in which the whole dotted path resolves, only members pushed so far) is run by TLC over random programs on the names {A,B,C} nested to depth 3 with an imported file and `as` names; every reference recorded by the real parser (file, line, token -> definition file, line) and every field width is decided by TLC against the machine.", "6 C11", "TLA+ Compiler state machine + TLC trace validation of recorded name resolutions"),
  "C13": ("model_checking", "Compiler!EvalCalc (precedence climbing over the token list) is model-checked against arithmetic templates (MC_Expr) and run by TLC over random constant programs; the parsed value of every constant, the capacities/options using it and the value denoted by the literal emitted into Python (import), C (compiled probe) and Go (lexical rules) are decided by TLC.", "6 C13", "TLA+ expression evaluator model-checked + TLC trace validation of constant values in parser and generated code"),
+ "C09": ("model_checking", "Outcome typing (a schema, a ParserError, an OSError; nothing else; within 10 s) is decided by TLC for every input: declaration-level mutants of valid programs, for which the Compiler machine also gives the exact acceptance verdict and whose step counter is bounded (termination), character/token/line mutants and truncations of the repository's own schemas and of random programs, and token soup over the lexer vocabulary; every accepted input is rendered for c, go, py and c -O and any exception other than RendererError is an event the specification has no action for.", "6 C09", "TLA+ Compiler machine (verdict + termination bound) + TLC outcome typing of mutated inputs; totality is sampled, not proved"),
 }
 checks = []
 for pid, (cat, text, ref, tech) in sorted(claimed.items()):
